@@ -274,6 +274,60 @@ func deepVisitE(fn *ssa.Function, visit func(inner, site ssa.Instruction, env *v
 	rec(fn, nil, nil, 0)
 }
 
+// deepVisitC is deepVisitE that also enters the function literals nested in every function it
+// visits (their captured variables resolve through norm to values of the creating function, and
+// from there through the environment).
+func deepVisitC(fn *ssa.Function, visit func(inner ssa.Instruction, env *venv)) {
+	seen := map[*ssa.Function]bool{}
+	var rec func(f *ssa.Function, env *venv, depth int)
+	rec = func(f *ssa.Function, env *venv, depth int) {
+		if seen[f] {
+			return
+		}
+		seen[f] = true
+		defer delete(seen, f)
+		allInstrs(f, func(ins ssa.Instruction) {
+			visit(ins, env)
+			if depth >= 4 {
+				return
+			}
+			if cc, _, isGo := callCommon(ins); cc != nil && !isGo {
+				if sc := cc.StaticCallee(); sc != nil && isHelper(sc) {
+					o := originOf(sc)
+					ne := &venv{bind: map[*ssa.Parameter]ssa.Value{}, outer: env}
+					for j, par := range o.Params {
+						if j < len(cc.Args) {
+							ne.bind[par] = cc.Args[j]
+						}
+					}
+					rec(o, ne, depth+1)
+				}
+			}
+		})
+		for _, a := range f.AnonFuncs {
+			rec(a, env, depth)
+		}
+	}
+	rec(fn, nil, 0)
+}
+
+// calleeNameE: the short name of the function a call invokes — its static callee, or the function
+// its callee value denotes once parameters are bound through env (a fold handed down as a function
+// value).
+func calleeNameE(cc *ssa.CallCommon, env *venv) string {
+	if n := calleeShort(cc); n != "" {
+		return n
+	}
+	if cc.IsInvoke() {
+		return ""
+	}
+	v, _ := normE(cc.Value, env, false)
+	if f := asFunc(v); f != nil {
+		return Short(originOf(f).String())
+	}
+	return ""
+}
+
 // deepCall is a call found by a deep search.
 type deepCall struct {
 	Site  ssa.Instruction // in the searched function
